@@ -198,6 +198,16 @@ pub fn calculate_k_tuples(
     follow_cache: &FollowCache,
 ) -> Result<BTreeMap<usize, KTuples>> {
     let cfg = &grammar_config.cfg;
+    // The k-tuple representation has a fixed capacity, report this instead of panicking later
+    let max_terminal_index =
+        cfg.get_ordered_terminals().len() + parol_runtime::lexer::FIRST_USER_TOKEN as usize;
+    if max_terminal_index > crate::analysis::k_tuple::MAX_TERMINAL_INDEX {
+        bail!(
+            "The grammar has too many terminals for the lookahead calculation: terminal index {} exceeds the maximum of {}",
+            max_terminal_index,
+            crate::analysis::k_tuple::MAX_TERMINAL_INDEX
+        );
+    }
     let nti = Rc::new(cfg.get_non_terminal_index_function());
     cfg.get_non_terminal_set()
         .iter()
